@@ -137,6 +137,18 @@ pub(crate) mod verif_support {
         }
     }
 
+    /// `<Value as PartialEq>::eq` restricted to what harnesses compare: scalars and strings structurally,
+    /// containers never equal (harnesses using this stub only compare scalars/strings).
+    pub fn value_eq_shallow(a: &Value, b: &Value) -> bool {
+        match (a, b) {
+            (Value::Null, Value::Null) => true,
+            (Value::Bool(x), Value::Bool(y)) => x == y,
+            (Value::Number(x), Value::Number(y)) => x == y,
+            (Value::String(x), Value::String(y)) => x == y,
+            _ => false,
+        }
+    }
+
     // ------------------------------------------------------------------ symbolic JSON numbers
     /// Any JSON number: every i64, every u64, every finite f64 (serde_json's three representations).
     pub fn any_number() -> Number {
